@@ -3,7 +3,7 @@
    that the hypotheses are satisfiable and that the model computes the hand-derived results of
    harness/src/fontgen/selftest.rs. *)
 From Coq Require Import List NArith ZArith Bool Arith Permutation.
-From RB Require Import Gen.MorxConsts Gen.MorxFeatMap Base.Result Model.Buffer Model.Font Model.Morx Model.MorxFeat Model.MorxPipe Proofs.MorxP.
+From RB Require Import Gen.MorxConsts Gen.MorxFeatMap Base.Result Model.Buffer Model.Font Model.Morx Model.MorxFeat Model.MorxPipe Proofs.MorxP Gen.Pipeline Model.Pipeline Proofs.PipelineP.
 Import ListNotations.
 
 (* ------------------------------------------------------------------ 1. rearrangement *)
@@ -441,3 +441,16 @@ Example C17_ex_ligature_deep_stack :
             [0; 0; 0xC0000002] [9; 9; 1; 2] [20; 21; 22; 8]) 0)) LTR 0 (ex_text (repeat 1 130 ++ [2; 3]))))
   = repeat 1 129 ++ [8; 3].
 Proof. vm_compute. reflexivity. Qed.
+
+(* ---- morx deletion markers leave the buffer exactly once (pass sequence regenerated from ot_shape.rs, Gen/Pipeline.v):
+   there are two removal sites with the guards apply_morx && apply_gpos / apply_morx && !apply_gpos; the first sits
+   behind substitution and before any positioning, the second behind all positioning (the zeroing of deleted glyphs
+   included) and before ignorables are hidden. *)
+Theorem C17_deleted_glyph_removal_sites : removal_order_ok = true.
+Proof. exact removal_order_holds. Qed.
+Print Assumptions C17_deleted_glyph_removal_sites.
+
+Theorem C17_deleted_glyphs_removed_exactly_once : forall morx gpos : bool,
+  removals_run morx gpos = Some (if morx then 1 else 0)%nat.
+Proof. exact removal_exactly_once. Qed.
+Print Assumptions C17_deleted_glyphs_removed_exactly_once.
